@@ -3,7 +3,7 @@
 set -u
 P=$1; PROF=$2; N=${3:-800}; SEED=${4:-5}
 cd /repo || exit 2
-if ! git apply --check "$P" 2>/dev/null; then echo "PATCH DOES NOT APPLY: $P"; git apply --3way "$P" 2>&1 | tail -2; fi
+if ! git apply --check "$P" 2>/dev/null; then echo "PATCH DOES NOT APPLY: $P"; exit 3; fi
 git apply "$P" 2>/dev/null || true
 git diff --stat | tail -1
 export CARGO_TARGET_DIR=/verif/.target
